@@ -31,6 +31,7 @@ TIERS = {
     'thorough': {'runs': 480, 'wall_cap': 1200, 'chunk': 1, 'examples': 500, 'steps': 40, 'min_budget': 120, 'min_each': 40},
 }
 
+OP_BUDGET = 60_000     # traced line events per operation; the largest legitimate operation of this workload needs < 5000
 FORBIDDEN_KEYS = ['items', 'keys', 'update', 'clear', 'pop', 'ayns', 'values', 'get', 'copy', 'setdefault']
 GOOD_KEYS = ['a', 'b', 'c', 'k1', 'x_y', 'Z9', '12', 0, 1, 7, '_u', '_children']
 
@@ -82,11 +83,35 @@ class _BadMapping:
         return self.d[k]
 
 
+INITIAL_DOCS = [
+    None,
+    "{a: [1, 2, {k1: x}], b: {0: zero, 1: {c: [true, null]}}, 7: seven}",
+    "{a: !force {b: !del [1, [2, 3]], 12: txt}, k1: !weak 2.5, Z9: {x_y: {a: {}}}, b: []}",
+    "{0: [[0], [1, [2]]], 1: !merge {a: 1}, x_y: !unsafe {k1: [a, b]}}",
+]
+
+
+def _initial(idx):
+    """-> (root node, model) of initial tree number idx (None: empty mapping built from Python; else parsed from YAML,
+    so that keys are node objects and merge flags are present - 'starting from any tree')."""
+    from awesomeyaml.nodes.dict import ConfigDict
+    text = INITIAL_DOCS[idx % len(INITIAL_DOCS)]
+    if text is None:
+        return ConfigDict({}), {}
+    import yaml as _pyyaml
+    from awesomeyaml.builder import Builder
+    b = Builder()
+    b.add_source(text, raw_yaml=True)
+    root = b.build()
+    import re
+    plain = re.sub(r'!(force|weak|del|merge|unsafe) ', '', text)
+    return root, _pyyaml.safe_load(plain)
+
+
 class World:
-    def __init__(self):
-        from awesomeyaml.nodes.dict import ConfigDict
-        self.root = ConfigDict({})
-        self.model = {}
+    def __init__(self, initial=0):
+        self.root, self.model = _initial(initial)
+        self.initial = initial
         self.ops = []
         self.faults = {}
         self.changes = 0
@@ -256,13 +281,19 @@ class World:
         resync = len(fns) > 2
         for fk in fault_kinds:
             self.fault(fk)
+        from .. import sched
+        sched.begin_op(name, OP_BUDGET)
         try:
             lib_fn()
             lib_exc = None
         except Violation:
             raise
+        except sched.SimTimeout:
+            raise Violation('liveness.step_budget', f'{label}: the operation did not finish within {OP_BUDGET} traced steps (op={op!r})', op=name)
         except Exception as e:
             lib_exc = e
+        finally:
+            sched.end_op()
         try:
             model_fn()
             mod_exc = None
@@ -316,9 +347,10 @@ class World:
                 if id(n) in memo:
                     return memo[id(n)]
                 if isinstance(n, dict):
+                    from awesomeyaml.nodes.node import ConfigNode
                     d = memo[id(n)] = {}
                     for k, c in n.ayns.named_children():
-                        d[k] = conv(c)
+                        d[k.ayns.native_value if isinstance(k, ConfigNode) else k] = conv(c)
                     return d
                 lst = memo[id(n)] = []
                 for _, c in n.ayns.named_children():
@@ -519,6 +551,18 @@ def op_update(w, real, mod, op, fk):
         pairs.append((k, rv, mv, f))
     form = op.get('form', 'mapping')
     after = op.get('after', 1)
+    if form == 'self':
+        return (lambda: real.update(real)), (lambda: mod.update(mod))
+    if form == 'from_node':
+        try:
+            src_r, src_m = w.r_at(op['src']), w.m_at(op['src'])
+        except (KeyError, IndexError, TypeError):
+            src_r, src_m = None, None
+        if not isinstance(src_m, dict) or src_m is mod or any(w._would_cycle(op['at'], {'k': 'node_at', 'path': op['src'] + [k]}) for k in src_m):
+            return (lambda: None), (lambda: None)
+        for k in src_m:
+            _key_fault(k, fk)
+        return (lambda: real.update(src_r)), (lambda: mod.update(src_m))
     if form == 'kwargs':
         pairs = [p for p in pairs if isinstance(p[0], str)]
     if form == 'raising_iter':
@@ -621,6 +665,16 @@ def op_extend(w, real, mod, op, fk):
     after = op.get('after', 1)
     if form == 'raising_iter':
         fk.append('iterator_raises')
+    if form == 'self':
+        return (lambda: real.extend(real)), (lambda: mod.extend(mod))
+    if form == 'from_node':
+        try:
+            src_r, src_m = w.r_at(op['src']), w.m_at(op['src'])
+        except (KeyError, IndexError, TypeError):
+            src_r, src_m = None, None
+        if not isinstance(src_m, list) or src_m is mod or any(w._would_cycle(op['at'], {'k': 'node_at', 'path': op['src'] + [i]}) for i in range(len(src_m))):
+            return (lambda: None), (lambda: None)
+        return (lambda: real.extend(src_r)), (lambda: mod.extend(list(src_m)))
 
     def lib():
         if form == 'raising_iter':
@@ -724,9 +778,9 @@ DICT_OPS = {'setattr', 'delattr', 'update', 'setdefault'}
 LIST_OPS = {'append', 'insert', 'extend', 'remove'}
 
 
-def replay_ops(ops):
+def replay_ops(ops, initial=0):
     """Run an explicit operation list; returns (violation or None, world)."""
-    w = World()
+    w = World(initial)
     try:
         w.check('initially')
         for op in ops:
@@ -739,7 +793,7 @@ def replay_ops(ops):
 # ---------------------------------------------------------------------------------------------
 # Hypothesis machine
 
-_LAST = {'ops': None, 'violation': None, 'examples': 0, 'faults': {}, 'ops_total': 0, 'digests': set(), 'samples': []}
+_LAST = {'ops': None, 'initial': 0, 'violation': None, 'examples': 0, 'faults': {}, 'ops_total': 0, 'digests': set(), 'samples': []}
 
 
 def _build_machine(max_steps):
@@ -770,6 +824,17 @@ def _build_machine(max_steps):
             self.w = World()
             _LAST['examples'] += 1
 
+        @initialize(idx=st.integers(0, len(INITIAL_DOCS) - 1))
+        def start_tree(self, idx):
+            self.w = World(idx)
+            try:
+                self.w.check('initially')
+            except Violation as v:
+                _LAST['ops'] = []
+                _LAST['initial'] = idx
+                _LAST['violation'] = {'rule': v.rule, 'msg': v.msg, 'features': v.features}
+                raise
+
         def _pick(self, s, want=None):
             cs = self.w.containers()
             if want is not None:
@@ -799,6 +864,7 @@ def _build_machine(max_steps):
                 self.w.apply(op)
             except Violation as v:
                 _LAST['ops'] = copy.deepcopy(self.w.ops)
+                _LAST['initial'] = self.w.initial
                 _LAST['violation'] = {'rule': v.rule, 'msg': v.msg, 'features': v.features}
                 raise
 
@@ -834,8 +900,8 @@ def _build_machine(max_steps):
             self._do(op)
 
         @rule(s=sel, items=st.lists(st.tuples(any_keys, values()), max_size=4),
-              form=st.sampled_from(['mapping', 'mapping', 'pairs', 'kwargs', 'raising_iter', 'bad_mapping']), after=st.integers(0, 3))
-        def d_update(self, s, items, form, after):
+              form=st.sampled_from(['mapping', 'mapping', 'pairs', 'kwargs', 'raising_iter', 'bad_mapping', 'self', 'from_node']), after=st.integers(0, 3), srcsel=sel)
+        def d_update(self, s, items, form, after, srcsel):
             at = self._pick(s, dict)
             seen = []
             its = []
@@ -846,7 +912,11 @@ def _build_machine(max_steps):
                 its.append([k, self._resolve(v)])
             if form == 'bad_mapping':
                 its = [it for it in its if not (isinstance(it[0], str) and len(it[0]) == 2)]
-            self._do({'op': 'update', 'at': at, 'items': its, 'form': form, 'after': after})
+            op = {'op': 'update', 'at': at, 'items': its, 'form': form, 'after': after}
+            if form == 'from_node':
+                op['src'] = self._pick(srcsel, dict)
+                op['items'] = []
+            self._do(op)
 
         @rule(s=sel, key=any_keys, v=values())
         def d_setdefault(self, s, key, v):
@@ -881,9 +951,13 @@ def _build_machine(max_steps):
                 i = 0
             self._do({'op': how, 'at': self._pick(s, list), 'key': i})
 
-        @rule(s=sel, items=st.lists(values(), max_size=4), form=st.sampled_from(['list', 'generator', 'raising_iter']), after=st.integers(0, 3))
-        def l_extend(self, s, items, form, after):
-            self._do({'op': 'extend', 'at': self._pick(s, list), 'items': [self._resolve(v) for v in items], 'form': form, 'after': after})
+        @rule(s=sel, items=st.lists(values(), max_size=4), form=st.sampled_from(['list', 'list', 'generator', 'raising_iter', 'self', 'from_node']), after=st.integers(0, 3), srcsel=sel)
+        def l_extend(self, s, items, form, after, srcsel):
+            op = {'op': 'extend', 'at': self._pick(s, list), 'items': [self._resolve(v) for v in items], 'form': form, 'after': after}
+            if form == 'from_node':
+                op['src'] = self._pick(srcsel, list)
+                op['items'] = []
+            self._do(op)
 
     return Machine
 
@@ -899,25 +973,39 @@ def _hyp_child(sc, tier):
                    report_multiple_bugs=False, suppress_health_check=list(HealthCheck), derandomize=False,
                    phases=[Phase.generate, Phase.shrink], print_blob=False)
     err = None
-    try:
-        run_state_machine_as_test(hypothesis.seed(sc['hyp_seed'])(Machine), settings=stg)
-    except Violation:
-        err = 'violation'
-    except BaseException as e:   # hypothesis wraps/re-raises; anything that is not ours is a harness error
-        if _LAST['violation'] is None:
-            import traceback
-            return {'harness': traceback.format_exc()[-3000:]}
-        err = 'violation'
+    box = {}
+
+    def client():
+        try:
+            run_state_machine_as_test(hypothesis.seed(sc['hyp_seed'])(Machine), settings=stg)
+        except Violation:
+            box['err'] = 'violation'
+        except BaseException:   # hypothesis wraps/re-raises; anything that is not ours is a harness error
+            if _LAST['violation'] is None:
+                import traceback
+                box['harness'] = traceback.format_exc()[-3000:]
+            box['err'] = 'violation'
+    from .. import sched
+    sch = sched.Scheduler({'policy': 'serial'}, opcodes=False)
+    sch.run([client])
+    if box.get('harness'):
+        return {'harness': box['harness']}
+    err = box.get('err')
     out = {'examples': _LAST['examples'], 'faults': _LAST['faults'], 'ops_total': _LAST['ops_total'],
            'digests': sorted(_LAST['digests'])[:4000], 'samples': _LAST['samples']}
     if err:
         out['violation'] = _LAST['violation']
         out['ops'] = _LAST['ops']
+        out['initial'] = _LAST['initial']
     return out
 
 
-def _replay_child(ops):
-    v, w = replay_ops(ops)
+def _replay_child(ops, initial=0):
+    from .. import sched
+    box = []
+    sch = sched.Scheduler({'policy': 'serial'}, opcodes=False)
+    sch.run([lambda: box.append(replay_ops(ops, initial))])
+    v, w = box[0]
     out = {'faults': w.faults, 'ops_total': len(w.ops), 'stats': w.stats,
            'digests': [core.digest(w.ops)] if (w.changes >= 2 or w.faults) else []}
     if v is not None:
@@ -933,7 +1021,7 @@ def execute(sc):
     res = core.ok_result()
     st = res['stats']
     if 'ops' in sc:
-        c = core.fork_call(_replay_child, (sc['ops'],), timeout=60)
+        c = core.fork_call(_replay_child, (sc['ops'], sc.get('initial', 0)), timeout=60)
     else:
         c = core.fork_call(_hyp_child, (sc, sc.get('tier', 'quick')), timeout=900)
     if c['status'] != 'ok':
@@ -954,6 +1042,7 @@ def execute(sc):
         res['violations'].append(core.violation(vi['rule'], vi['msg'], **vi['features']))
         if 'ops' in v:
             sc['ops'] = v['ops']
+            sc['initial'] = v.get('initial', 0)
     return res
 
 
